@@ -116,7 +116,7 @@ func RunWire(a *hlib.Args, e *hlib.Emitter, stream uint64) error {
 			return err
 		}
 	} else {
-		classes := []string{"root", "rootdeleg", "empty", "basic", "located", "odd", "rootdeleg", "nested"}
+		classes := []string{"root", "rootdeleg", "empty", "basic", "hibyte", "located", "odd", "nested"}
 		nq := 40
 		if a.Tier == "thorough" {
 			nq = 60
